@@ -71,6 +71,16 @@ INERT statements (tinert.py: print / warnings.warn / logging calls and asserts o
   `untranslated` when it raises outside the periodic branches); only a guard whose test is not understood is skipped.
   Trailing parameters with a default that only inert statements read are ignored in the signature checks.  The test is
   purely syntactic (closed list of side-effect-free functions, no method call, no store): a skipped statement cannot write.
+PURE LOCAL HELPERS (extract-function): a call `f(args...)` of a module-level function of boundary.py (only top-level
+  `def`s bind the name, the last one wins; or `from .x import f`, followed into x.py) is interpreted INLINE: the body runs
+  in a fresh environment (its parameters only; `BC`, `BC.top`, `phi`, arrays, numbers, index ranges may be passed;
+  positional / keyword arguments, numeric defaults) ON THE SAME PATH: the path condition, the oracle and the branch context
+  are shared, so a value computed by a helper is attributed to the periodic / non-periodic branch the call stands in and
+  an `if` on the periodic flags inside a helper forks the path exploration like one in the caller.  Resolution, the checks
+  on the definition (no decorator, e.g. `functools.cache`; no *args / **kwargs; no global / nonlocal; no generator / nested
+  function; name never re-assigned; no recursion, depth ≤ 4) and the argument binding are those of tnum.py.  A helper may
+  only write into `np.zeros` arrays it created itself: an item assignment to an array it received is `untranslated`
+  (there are no other in-place operations in this interpreter).  `a, b = f(...)` unpacks a returned tuple.
 ANY other statement or expression form makes the function `untranslated: <reason>` (no definition is emitted, its name
   is listed in `untranslated`, and the theorems about it in GenEqBC.lean no longer compile).
 Trusted (not derived): the shapes in the leaf table, C-order of `ravel` / `reshape`,
@@ -509,6 +519,7 @@ class Run:
         self.env, self.ctx, self.guards = {}, [], {}
         self.result, self.raised = None, None
         self.inert = tinert.analysis(fn)
+        self.init_scope(fn)
         a = tinert.effective_args(fn)           # without the extra parameters that only inert statements read
         names = [x.arg for x in a.args]
         if a.vararg or a.kwarg or a.kwonlyargs or a.defaults:
@@ -521,6 +532,11 @@ class Run:
             if len(names) != 1:
                 raise Bad("signature: expected (BC)")
             self.phi, self.bc = None, names[0]
+
+    def init_scope(self, fn):
+        self.is_helper, self.hstack, self.created = False, [], []
+        self.modname = tnum.FN_MODULE.get(id(fn))
+        self.locals = set(tinert._bindings([fn.args] + list(fn.body), deep=False))
 
     # ---- geometry
     def axes(self):
@@ -602,6 +618,14 @@ class Run:
         t = st.targets[0]
         if isinstance(t, ast.Tuple) and all(isinstance(e, ast.Name) for e in t.elts):
             v = self.ev(st.value)
+            if isinstance(v, Tup):                  # `a, b = <tuple>` (e.g. the tuple a helper returns)
+                if len(v.items) != len(t.elts):
+                    raise Bad(f"unpacking {len(v.items)} values into {len(t.elts)} names (line {st.lineno})")
+                if any(isinstance(x, Ref) and x.what[0] != "dims" for x in v.items):
+                    raise Bad(f"tuple assignment of {ast.unparse(st.value)[:40]}")
+                for e, x in zip(t.elts, v.items):
+                    self.env[e.id] = x
+                return
             if not (isinstance(v, Ref) and v.what[0] == "dims"):
                 raise Bad(f"tuple assignment from {ast.unparse(st.value)}")
             if len(t.elts) != self.nd:
@@ -613,6 +637,9 @@ class Run:
             z = self.env.get(t.value.id)
             if not isinstance(z, ZArr):
                 raise Bad(f"item assignment to {t.value.id}, which is not a np.zeros array (line {st.lineno})")
+            if self.is_helper and not any(z is c for c in self.created):
+                raise Bad(f"item assignment to {t.value.id}, an array that was not created inside the helper "
+                          f"(line {st.lineno})")
             idx = self.target_index(z, t.slice, ast.unparse(t))
             val = self.ev(st.value)
             z.assigned.append((idx, val, tuple(self.ctx), st.lineno))
@@ -736,6 +763,8 @@ class Run:
     def ev_Name(self, node):
         if node.id in self.env:
             return self.env[node.id]
+        if self.is_helper:                  # a helper sees its own parameters (bound in env) only
+            raise Bad(f"name {node.id}")
         if node.id == self.bc:
             return Ref("BC")
         if node.id == self.phi:
@@ -1016,7 +1045,63 @@ class Run:
             b = self.ev(f.value)
             if isinstance(b, Ref) and b.what[0] == "mesh":
                 return self.cell_numbers()
+        r = self.local_helper(node)
+        if r is not None:
+            return r[0]
         raise Bad(f"call {ast.unparse(f)[:40]}")
+
+    # ---- pure local helpers (the extract-function refactoring; resolution / checks / binding shared with tnum.py)
+    def local_helper(self, node):
+        """(value,) of a call of a module-level function of boundary.py (or one imported from another module of the
+        package), interpreted inline on the same path; None when the call is not such a call"""
+        f = node.func
+        if not isinstance(f, ast.Name) or self.modname is None:
+            return None
+        if f.id in self.env or f.id in self.locals or (not self.is_helper and f.id in (self.bc, self.phi)):
+            return None
+        r = tnum.resolve_helper(self.modname, f.id)
+        if r is None:
+            return None
+        return (self.call_helper(r[0], r[1], node),)
+
+    def sub_run(self, fn, modname):
+        """interpreter for the body of a helper: fresh environment, the SAME path (oracle, path condition, branch
+        context, guards are shared objects), so a value it computes is attributed to the branch the call stands in"""
+        r = Run.__new__(Run)
+        r.mesh, r.cls, r.fn, r.role, r.nd = self.mesh, self.cls, fn, self.role, self.nd
+        r.oracle, r.trace, r.pc = self.oracle, self.trace, self.pc
+        r.env, r.ctx, r.guards = {}, self.ctx, self.guards
+        r.result, r.raised = None, None
+        r.inert = tinert.analysis(fn)
+        r.phi, r.bc = None, None
+        r.init_scope(fn)
+        r.is_helper, r.modname, r.hstack = True, modname, self.hstack + [self.fn]
+        return r
+
+    def call_helper(self, fn, modname, node):
+        nm = getattr(fn, "name", "?")
+        tnum.check_helper_def(fn)
+        chain = [f.name for f in self.hstack + [self.fn]]
+        if fn is self.fn or any(f is fn for f in self.hstack):
+            raise Bad(f"helper {nm} is recursive ({' > '.join(chain + [nm])})")
+        if len(self.hstack) >= tnum.HELPER_DEPTH:
+            raise Bad(f"helper calls nested deeper than {tnum.HELPER_DEPTH} ({' > '.join(chain + [nm])})")
+        bound = tnum.bind_call(fn, node, self.ev, lambda e: self.sub_run(fn, modname).ev(e))
+        for v in bound.values():
+            if isinstance(v, (Sl, Mat, Ghosted1D)):
+                raise Bad(f"call of {nm}: argument kind {type(v).__name__}")
+        sub = self.sub_run(fn, modname)
+        sub.env.update(bound)
+        bcs = [p for p, v in bound.items() if isinstance(v, Ref) and v.what[0] == "BC"]
+        sub.bc = bcs[0] if len(bcs) == 1 else None          # the name the tests `<BC>.left.periodic` may use
+        try:
+            sub.block(fn.body)
+        except Bad as ex:
+            raise Bad(f"{nm}: {ex}")
+        if sub.result is None:
+            raise Bad(f"{nm}: no return")
+        tnum.note_inlined(chain[0], modname, fn)
+        return sub.result
 
     def cell_numbers(self):
         fn = self.mesh.method(self.cls, "cell_numbers")
@@ -1049,7 +1134,9 @@ class Run:
                 shp = tuple(shp.items)
             else:
                 raise Bad(f"np.{name} shape")
-            return ZArr(shp, name)
+            z = ZArr(shp, name)
+            self.created.append(z)
+            return z
         if node.keywords:
             raise Bad(f"np.{name} with keywords")
         if name == "arange" and len(args) in (1, 2):
@@ -1633,7 +1720,7 @@ def generate(repo):
     src = os.path.join(repo, "src", "pyfvtool")
 
     def parse(f):
-        return tnum.note_module(ast.parse(open(os.path.join(src, f)).read()))
+        return tnum.parse_module(src, f)
     status, out = {}, [HEADER]
     mesh = MeshInfo(parse("mesh.py"))
     tree = parse("boundary.py")
@@ -1683,7 +1770,7 @@ def main():
     repo = os.environ.get("VERIF_REPO", "/repo")
     dst = sys.argv[1]
     text, status = generate(repo)
-    status = tinert.annotate(status)
+    status = tnum.annotate_helpers(tinert.annotate(status))
     write_if_changed(dst, text)
     base = os.path.splitext(os.path.basename(dst))[0].lower()
     write_if_changed(os.path.join(os.path.dirname(os.path.abspath(dst)), f"{base}_status.json"),
